@@ -235,6 +235,14 @@ where
             d.violate("C03", "step-failure-swallowed", format!("{tname}: an injected step failure did not fail the run"));
         }
     }
+    // C19: generation must always yield tours - an ant-colony run that aborts did not
+    if matches!(case.kind, Kind::AntSystem | Kind::Mmas) && matches!(case.fault, TFault::None | TFault::ExtremeDraw { .. }) {
+        match &report.result {
+            RunResult::Err(e) => d.violate("C19", "aco-run-failed kind=error", format!("{tname}: {}", e.chars().take(200).collect::<String>())),
+            RunResult::Panic(p) => d.violate("C19", "aco-run-failed kind=panic", format!("{tname}: {p}")),
+            _ => {}
+        }
+    }
     report.digest = digest_of(&state, "run");
     report.violations = std::mem::take(&mut d.violations);
     report.counters = std::mem::take(&mut d.counters);
